@@ -33,7 +33,9 @@ import (
 
 var (
 	ctrlNames     = []string{"c0", "c1"}
-	composedKinds = []string{"KindA", "KindB", "KindC"}
+	// PrefixList is an ordinary (non-list) kind whose name happens to end in "List": informer tracking must key
+	// it by its real kind (only object LISTS have their "List" suffix trimmed).
+	composedKinds = []string{"KindA", "KindB", "PrefixList"}
 	revGVK        = v1.CompositionRevisionGroupVersionKind
 )
 
